@@ -71,6 +71,11 @@ def cases(rng, quick, gr):
     # (4c) extreme but finite magnitudes
     for lit in ["1e-20", "3.5e+15", "2E-30", "1e25", "9.99e-7", "123456789012.5", "1e-300*1e5", "7e150*7e-150"]:
         yield {"tag": "extreme-magnitude", "text": HDR + DECLS + "Op(%s, %s * x, 1 / %s, (%s) ** 2, %s + n) | 0\n" % (lit, lit, lit, lit, lit)}
+    # (4d) left-to-right chains of / and * whose regrouping (a / (b * c), (a * b) / c ...) leaves int64 or the double range although
+    #      every written sub-expression stays in range
+    for e in ["1 / 4294967296 / 4294967296", "3 / 3000000000 / big9", "(1+2j) / 6000000000 / 6000000000", "1e250 / 1e200 / 1e200", "1e-250 / D9[0] / 1e-200",
+              "7 / 2 ** 31 / 2 ** 31 / 2 ** 2", "big9 / big9 / big9 / big9", "1e-200 / 1e150 * 1e200", "5 / n / 4611686018427387904 / 4", "1 / D9[1] / D9[1] / D9[1] * 1e300"]:
+        yield {"tag": "regrouping-sensitive-chain", "text": HDR + DECLS + "int big9 = 4000000000\nfloat array D9 =\n    1e-200, 1e120\nOp(%s, 2 * (%s)) | 0\n" % (e, e)}
     # (4a) complex exponents on integer / float / complex bases, as literals and variables
     for base in ["2", "n", "A[1]", "(1+1)", "3", "2.0", "x", "1j", "(2)"]:
         for ex in ["1j", "-0.5J", "1+1j", "zc", "2j", "(0.5+0.25j)"]:
